@@ -36,6 +36,7 @@ type DefFun struct {
 }
 
 type AxiomT struct {
+	Trig  []string
 	Label string
 	T     *Term
 	syms  map[string]SymSig
@@ -111,6 +112,13 @@ func (p *Prelude) Emit(q *Query, wantModel bool) (string, []string) {
 				continue
 			}
 			trig := false
+			if len(ax.Trig) > 0 {
+				for _, k := range ax.Trig {
+					if _, ok := syms[k]; ok {
+						trig = true
+					}
+				}
+			} else {
 			for k := range ax.syms {
 				if _, isDef := p.Defs[k]; isDef {
 					// defined functions also trigger
@@ -119,6 +127,7 @@ func (p *Prelude) Emit(q *Query, wantModel bool) (string, []string) {
 					trig = true
 					break
 				}
+			}
 			}
 			if trig {
 				usedAx[i] = true
